@@ -27,8 +27,17 @@ as-is readings as violations (classes `regular-net-wires`, `wildcard-in-wires`, 
 **Oracle (sampled):** every attribute that `def_file.parse` extracts from a generated DEF text equals the generator's AST
 (units, die area, rows, tracks, via definitions, components, pins, net pins/options, raw wire entries), and
 `wires`/`vias` equal the generator's ground-truth geometry.
-**Not covered by theorems:** the lark grammar/lexer and the transformer's record building (exercised only by the
-differential run). -/
+**Theorem, text level** (section `text`, model `KV.DefText` in Model/DefText.lean = the whole grammar of `def_file.py` read as
+lark reads it: contextual scanner with the per-state terminal order of the real `Lark` object, string terminals `(` `;` `NEW`
+`DO` folded into `ID` and re-typed on a whole match, the merged scanner after every point / orientation / `DO` statement,
+ORIENTATION with look-ahead, NUMBER / SIGNED_NUMBER / STRING as their expressions; then `DefFile.ok` = the `int()` calls of
+`DefTransformer`): `def_text_roundtrip` — `parseDef (printDef f) = some f` for every valid syntax tree; `def_text_roundtrip_tree`
+(grammar alone), `def_text_valid_ok`.
+**Correspondence, text level (harness/c20.py, sampled):** the model reader (driver `defparse`) against the real lark grammar — parse
+tree with ALL tokens kept, every rule and every token text — and the real `def_file.parse` (accept / raise) on generated files,
+hand-written corner cases (missing blanks, `(10`, `NEWVIA`, `3;`, escaped strings, comments) and mutated texts.
+**Still trusted:** that lark implements the grammar as the hand-written reader does (LALR tables, `re` semantics) — checked by the
+text correspondence, not proved; the transformer's record building (attribute oracle above). -/
 namespace KV.C20
 open KV.Def
 
